@@ -767,6 +767,8 @@ def install(it):
     A(r'core::num::<impl u\w+>::checked_sub', m_checked_sub)
     A(r'core::num::<impl [ui]\w+>::wrapping_add', lambda it, a, ty, c: it.binop('Add', a[0], a[1]))
     A(r'core::num::<impl [ui]\w+>::wrapping_sub', lambda it, a, ty, c: it.binop('Sub', a[0], a[1]))
+    A(r'core::num::<impl [ui]\w+>::wrapping_shl', lambda it, a, ty, c: it.binop('Shl', a[0], a[1]))
+    A(r'core::num::<impl [ui]\w+>::wrapping_shr', lambda it, a, ty, c: it.binop('Shr', a[0], a[1]))
     A(r'<&*(?:u|i)(?:8|16|32|64|128|size) as std::cmp::PartialOrd(<.*>)?>::(lt|le|gt|ge)', m_ref_int_cmp)
     A(r'<(?:u|i)(?:8|16|32|64|128|size) as std::cmp::Ord>::cmp', lambda it, a, ty, c: it.binop('Cmp', deref(it, a[0]), deref(it, a[1])))
     A(r'<(?:u|i)(?:8|16|32|64|128|size) as std::cmp::Ord>::min', m_min_max('min'))
